@@ -399,7 +399,7 @@ def unwrap(s):
 def extract_reg(docs, g, notes):
     """getThreadTraceList (find-or-create under the lock), the thread_local cache and the entry points that fill it"""
     g.update({"tr_registry": "RegOther", "tr_reg_lock_first": False, "tr_tls_cache": False,
-              "tr_strcache": "StrOther", "tr_tel_fields": False, "tr_names_via_cache": False})
+              "tr_strcache": "StrOther", "tr_tel_fields": False, "tr_names_via_cache": False, "tr_save_readonly": False})
     CACHE = ("mem", "stringCache", "this")
     STR = ("ref", "str", "ParmVarDecl")
     via = {}
@@ -459,6 +459,22 @@ def extract_reg(docs, g, notes):
                 g["tr_registry"] = "RegStoreAlways"
             if g["tr_registry"] == "RegOther":
                 notes.append("getThreadTraceList: not recognised: %r" % (b,))
+        if k == "CXXMethodDecl" and nm == "saveLog":
+            lock_first = bool(b) and b[0][0] == "decl" and "lock_guard" in b[0][2] and b[0][3] == ("mem", "threadTraceMutex", "this")
+            text = repr(b)
+            uses = text.count("'threadTrace'")
+            ranges = []
+
+            def rng(s_, depth):
+                if isinstance(s_, tuple) and s_ and s_[0] == "forrange" and s_[2] == ("mem", "threadTrace", "this"):
+                    ranges.append(s_[1])
+            walk_sx(b, rng)
+            ok = lock_first and uses == 1 and len(ranges) == 1 and ranges[0] and ranges[0][1].replace(" ", "").startswith("const") \
+                and ranges[0][1].rstrip().endswith("&")
+            g["tr_save_readonly"] = bool(ok)
+            if not ok:
+                notes.append("saveLog: lock first %s; threadTrace mentioned %d times (1 = only as the loop range); loop variable %r"
+                             % (lock_first, uses, ranges[:1]))
         if k == "FunctionDecl" and nm == "initThreadEventList":
             TL = ("ref", "threadEventList", "VarDecl")
             init_ok = len(b) == 1 and b[0][0] == "if" and b[0][3] is None \
@@ -539,11 +555,11 @@ def coq_text(img, fm, tr):
                 fid, codes(f["magic"].encode()), codes(f["scale"].encode()), f["csize"], f["ncomp"], f["pixcomp"], cb(f["flip"]),
                 f["magic"], f["csize"], f["pixel_t"]))
     L.append("  end.\n")
-    L.append("Definition gen_tr : trfacts :=\n  mkTr %d %s %s %d %s %s %s %d %d %d %s %s %s %s %s %s %d %s\n       %s %s %s %s %s %s." % (
+    L.append("Definition gen_tr : trfacts :=\n  mkTr %d %s %s %d %s %s %s %d %d %d %s %s %s %s %s %s %d %s\n       %s %s %s %s %s %s %s." % (
         tr["tr_chunk"], tr["tr_cmp"], cb(tr["tr_empty_or"]), tr["tr_reserve"], cb(tr["tr_returns_back"]), cb(tr["tr_record_via_current"]),
         cb(tr["tr_open_first"]), tr["tr_objects"], tr["tr_objects_comma"], tr["tr_bare_close"], tr["tr_seek"], cb(tr["tr_close_last"]),
         tr["tr_stack_scope"], cb(tr["tr_push_begin"]), cb(tr["tr_stray_end_break"]), cb(tr["tr_end_top_pop"]), tr["tr_long_threshold"],
-        cb(tr["tr_tid_counter"]), tr.get("tr_registry", "RegOther"), cb(tr.get("tr_reg_lock_first")), tr.get("tr_strcache", "StrOther"), cb(tr.get("tr_tel_fields")),
+        cb(tr["tr_tid_counter"]), tr.get("tr_registry", "RegOther"), cb(tr.get("tr_reg_lock_first")), cb(tr.get("tr_save_readonly")), tr.get("tr_strcache", "StrOther"), cb(tr.get("tr_tel_fields")),
         cb(tr.get("tr_names_via_cache")), cb(tr.get("tr_tls_cache"))))
     return "\n".join(L) + "\n"
 
